@@ -235,6 +235,12 @@ def check_case(case, ctx):
         except Exception as e:
             ctx.count('build_failed:' + type(e).__name__)
             return
+    if case.get('edited'):
+        with monitor.suspended():
+            case = dict(case, edits_applied=netgen.random_edits(c, rng, allow_interface=False))
+            CUR['case'] = case
+            net = refsem.net_of(c)
+        ctx.count('edited_circuits')
     sh = refsem.structural_hash(net)
     if any(t in ('XOR', 'NXOR') and len(o) > 2 for t, o in net.gates.values()):
         ctx.count('nary_xor')
@@ -277,7 +283,7 @@ def gen_case(rng, spec):
     if rng.random() < 0.15:
         sels.append([])
     return {'kind': 'random', 'shape': shape, 'net': netgen.describe(net), 'rseed': rng.getrandbits(32),
-            'shuffle': rng.random() < 0.2, 'selections': sels}
+            'shuffle': rng.random() < 0.2, 'selections': sels, 'edited': rng.random() < 0.3}
 
 
 def run_shard(spec, ctx):
